@@ -43,8 +43,11 @@ def scripts(draw, flavours=("async-serial", "async-tcp", "sync-serial", "sync-tc
         n = draw(st.integers(0, 12))
         lat = [round(draw(st.floats(0, 0.9)) * rt, 3) for _ in range(n)]
         silent = draw(st.one_of(st.none(), st.floats(0, 6).map(lambda x: round(x * rt, 3))))
-        return {"flavour": flavour, "rt": rt, "kind": "watchdog", "dials": ["ok"], "latencies": lat, "silent_from": silent, "events": []}
-    ev_kinds = ["data", "data", "read_error", "write_error", "abrupt_close", "advance", "advance", "advance_rt", "disconnect", "stop"] + (["peer_eof", "peer_eof"] if tcp else [])
+        # the link may come up late: a few refused dials first (each followed by the RT wait), so that it is
+        # established long after the gateway object was built
+        late = draw(st.sampled_from([0, 0, 1, 3, 4]))
+        return {"flavour": flavour, "rt": rt, "kind": "watchdog", "dials": ["fail"] * late + ["ok"], "latencies": lat, "silent_from": silent, "events": []}
+    ev_kinds = ["data", "data", "read_error", "write_error", "abrupt_close", "advance", "advance", "advance_rt", "disconnect", "stop", "swap_callbacks"] + (["peer_eof", "peer_eof"] if tcp else [])
     events = []
     for _ in range(draw(st.integers(1, 10))):
         k = draw(st.sampled_from(ev_kinds))
@@ -85,9 +88,14 @@ def run_script(case):
         if case["kind"] == "watchdog":
             world.probe_latency = list(case["latencies"])
             world.silent_from = None if case["silent_from"] is None else world.clock.t + case["silent_from"]
-        world.start()
+        try:
+            world.start()
+        except common.HarnessError:
+            raise
+        except Exception as exc:  # pylint: disable=broad-except
+            raise Violation(f"start_raises.{case['flavour']}.{type(exc).__name__}", case, f"[{case['flavour']}, RT={case['rt']}] gateway.start() raised {type(exc).__name__}: {exc} with the dial script {case['dials']}; timeline: {timeline(world)}") from exc
         if case["kind"] == "watchdog":
-            world.advance(10 * case["rt"])
+            world.advance((10 + len(case["dials"])) * case["rt"])
         for ev in case["events"]:
             kind = ev[0]
             conn = world.live_conn()
@@ -99,6 +107,8 @@ def run_script(case):
                     world.settle()
             elif world.stopped_at is not None:
                 info["skipped"] += 1
+            elif kind == "swap_callbacks":
+                world.swap_callbacks()  # the application installs other callbacks, whatever the link state
             elif kind == "disconnect":
                 if info["user_disconnect_at"] is None:
                     world.user_disconnect()
@@ -150,6 +160,10 @@ def judge(case, world, info, stats=None):
     for m in world.made:
         if m["gw"] is not world.gw:
             fail("conn_made_arg", "on_conn_made was not called with the gateway")
+    for kind, records in (("on_conn_made", world.made), ("on_conn_lost", world.lost)):
+        for r in records:
+            if r.get("epoch") != r.get("current"):
+                fail("stale_callback", f"{kind} at t={rel(world, r['t'])} went to a callback the application had replaced (installed as #{r.get('epoch')}, current #{r.get('current')})")
     # B. one on_conn_lost per ended connection, with the right error argument
     ended = [e for e in world.ended if world.loss_delivered(e["cid"])]
     if len(world.lost) != len(ended):
@@ -214,7 +228,8 @@ def judge(case, world, info, stats=None):
             # "about twice": the link must be dropped once 2*RT have passed without an answer, observed
             # at the next periodic check (period about RT) -> at most ~3*RT after the last answer.
             answers = [p["t"] + p["latency"] for p in world.probes if p["cid"] == 0 and p["latency"] is not None]
-            last_answer = max([world.t0] + answers)
+            up = [e[0] for e in world.log if e[1] == "established" and str(e[2]) == "0"]
+            last_answer = max([up[0] if up else world.t0] + answers)  # silence is counted from the moment the link came up
             deadline = last_answer + 3 * rt + max(0.1, 0.25 * rt)
             if t_end >= deadline + EPS:
                 if not end0 or end0[0]["t"] > deadline + EPS:
